@@ -131,7 +131,7 @@ func (s *state) walk(node ast.Node) {
 		s.writeRawText(node.Text)
 	case *ast.CssNode:
 		if node.Expr != nil {
-			s.jsln(s.bufferName, " += ", node.Expr, " + '-';")
+			s.jsln(s.bufferName, " += (", node.Expr, ") + '-';")
 		}
 		s.writeRawText([]byte(node.Suffix))
 	case *ast.DebuggerNode:
@@ -424,7 +424,17 @@ func (s *state) visitDataRef(node *ast.DataRefNode) {
 	}
 
 	// Nullsafe access makes this complicated.
-	// FOO.BAR?.BAZ => (FOO.BAR == null ? null : FOO.BAR.BAZ)
+	// FOO.BAR?.BAZ => ((FOO.BAR == null) ? null : FOO.BAR.BAZ)
+	var nullSafe = false
+	for _, accessNode := range node.Access {
+		if isNullSafeAccess(accessNode) {
+			nullSafe = true
+		}
+	}
+	if nullSafe {
+		s.js("(")
+		defer s.js(")")
+	}
 	for _, accessNode := range node.Access {
 		switch node := accessNode.(type) {
 		case *ast.DataRefIndexNode:
@@ -445,6 +455,18 @@ func (s *state) visitDataRef(node *ast.DataRefNode) {
 		}
 	}
 	s.js(expr)
+}
+
+func isNullSafeAccess(n ast.Node) bool {
+	switch node := n.(type) {
+	case *ast.DataRefIndexNode:
+		return node.NullSafe
+	case *ast.DataRefKeyNode:
+		return node.NullSafe
+	case *ast.DataRefExprNode:
+		return node.NullSafe
+	}
+	return false
 }
 
 func (s *state) visitCall(node *ast.CallNode) {
